@@ -1,6 +1,6 @@
 """C07 — Body size limits are enforced and streamed bodies are relayed exactly
 (mitmproxy/proxy/layers/http/__init__.py HttpStream, proxy/layers/http/_http1.py, utils/human.py)."""
-from lib.coqterm import cbool, cbytes, clist, copt, cZ, hx, unhx
+from lib.coqterm import cbool, cbytes, clist, copt, cN, cZ, hx, unhx
 
 ID = "C07"
 QUICK_N = 3000
@@ -27,7 +27,7 @@ TRUSTED = ["Coq 8.16.1 kernel (coqc), vm_compute for case evaluation",
 ASSUMPTIONS = ["hooks and GetHttpConnection complete before the next event reaches the stream (no events queued while paused)",
                "HTTP/1 on both sides; HTTP/2 flow-control buffering (BufferedH2Connection) is outside the bound",
                "addons only assign message.stream in requestheaders/responseheaders; no kill, no replaced response, no trailers"]
-COQ_PRELUDE = "From MV Require Import Model.HttpBody.\nFrom Coq Require Import ZArith.\n"
+COQ_PRELUDE = "From MV Require Import Model.HttpBody Model.H2SendBuf.\nFrom Coq Require Import ZArith NArith.\n"
 
 CALLABLES = ["KIdent", "KDropAll", "KDouble", "KSplit", "KDropOdd", "KHold", "KIter"]
 SIZE_STRS = [None, None, None, "", "0", "1", "2", "3", "4", "5", "6", "8", "10", "12", "16", "20", "33", "1k", "-1",
@@ -124,9 +124,55 @@ def gen_run(rng):
     return case
 
 
+def gen_h2buf(rng):
+    """operations on a real BufferedH2Connection: small windows, several chunks buffered per stream, window
+    updates smaller than the buffered chunks"""
+    n = rng.choice([1, 1, 2, 2, 3])
+    w0 = rng.choice([0, 1, 2, 3, 5, 8, 13, 30])
+    c0 = rng.choice([65535, 65535, 0, 1, 4, 9, 20, 50])
+    ops, ended = [], set()
+    for _ in range(rng.randint(2, 14)):
+        r = rng.random()
+        i = rng.below(n)
+        if r < 0.55:
+            if i in ended:
+                continue
+            es = rng.chance(0.08)
+            ops.append(["send", i, hx(rng.bytes(rng.choice([0, 1, 2, 3, 5, 9, 17, 40]), alphabet=b"abcdefghijklmnopqrstuvwxyz0123456789")), es])
+            if es:
+                ended.add(i)
+        elif r < 0.62:
+            if i not in ended:
+                ops.append(["end", i]); ended.add(i)
+        elif r < 0.85:
+            ops.append(["wins", i, rng.choice([1, 1, 2, 3, 4, 7, 12, 50])])
+        else:
+            ops.append(["winc", rng.choice([1, 2, 3, 5, 8, 30, 200])])
+    return {"k": "h2buf", "n": n, "w0": w0, "c0": c0, "step": rng.choice([1, 2, 3, 4, 7, 11]), "ops": ops}
+
+
+def gen_h2e2e(rng):
+    """a body relayed over an HTTP/2 leg by a real HttpLayer: h2 client (response direction) or h2 server (request)"""
+    direction = rng.choice(["resp", "resp", "req"])
+    size = rng.choice([1, 5, 12, 30, 60, 120])
+    data = rng.bytes(size, alphabet=b"abcdefghijklmnopqrstuvwxyz0123456789")
+    chunks = _partition(rng, data)
+    pol = rng.choice([None, True, True] + CALLABLES) if direction == "resp" else rng.choice([True, True] + CALLABLES)
+    return {"k": "h2e2e", "dir": direction, "w0": rng.choice([0, 1, 3, 7, 16]), "step": rng.choice([1, 2, 3, 5, 9]),
+            "chunks": [hx(c) for c in chunks], "thr": rng.choice([None, None, "4", "20"]), "store": rng.chance(0.5),
+            "pol": pol, "fr": "chunked" if isinstance(pol, str) else rng.choice(["len", "chunked"])}
+
+
 def gen(rng, n, tier):
     out = []
     for _ in range(n):
+        r0 = rng.random()
+        if r0 < 0.10:
+            out.append(gen_h2buf(rng))
+            continue
+        if r0 < 0.16:
+            out.append(gen_h2e2e(rng))
+            continue
         if rng.chance(0.15):
             k = rng.randint(0, 4)
             s = "".join(rng.choice(PS_TOKENS) for _ in range(k))
@@ -215,7 +261,191 @@ def _segments(b, is_req, e100=False):
     return segs
 
 
+H2_HEADERS = [(b":method", b"GET"), (b":scheme", b"http"), (b":path", b"/"), (b":authority", b"example.com")]
+
+
+def run_h2buf(case):
+    """drive a real BufferedH2Connection (server side) against a plain hyper-h2 client"""
+    import h2.config, h2.connection, h2.events, h2.settings
+    from mitmproxy.proxy.layers.http._http_h2 import BufferedH2Connection
+    srv = BufferedH2Connection(h2.config.H2Configuration(client_side=False, header_encoding=False))
+    cli = h2.connection.H2Connection(h2.config.H2Configuration(client_side=True, header_encoding=False))
+    frames, ended = [], set()
+
+    def pump():
+        while True:
+            a = cli.data_to_send()
+            if a:
+                srv.receive_data(a)
+            b = srv.data_to_send()
+            if b:
+                for ev in cli.receive_data(b):
+                    if isinstance(ev, h2.events.DataReceived):
+                        frames.append([ev.stream_id, hx(ev.data), ev.stream_ended is not None])
+                        if ev.stream_ended is not None:
+                            ended.add(ev.stream_id)
+                    elif isinstance(ev, h2.events.StreamEnded):
+                        ended.add(ev.stream_id)
+            if not a and not b:
+                return
+
+    srv.initiate_connection(); cli.initiate_connection(); pump()
+    c0, sid = case["c0"], 1
+    if c0 < 65535:
+        # use up the connection window on a stream of its own (the client never acknowledges the data)
+        cli.send_headers(sid, H2_HEADERS, end_stream=True); pump()
+        srv.send_headers(sid, [(b":status", b"200")])
+        srv.send_data(sid, b"x" * (65535 - c0), end_stream=True); pump()
+        sid += 2
+    cli.update_settings({h2.settings.SettingCodes.INITIAL_WINDOW_SIZE: case["w0"]}); pump()
+    sids = []
+    for _ in range(case["n"]):
+        cli.send_headers(sid, H2_HEADERS, end_stream=True); pump()
+        srv.send_headers(sid, [(b":status", b"200")]); pump()
+        sids.append(sid); sid += 2
+    frames.clear()
+    assert srv.outbound_flow_control_window == c0 and srv.max_outbound_frame_size == 16384
+    fed, out, closed_local = [], [], set()
+
+    def do(op):
+        k = op[0]
+        if k in ("send", "end"):
+            s = sids[op[1]]
+            if s in closed_local:
+                return
+            if k == "send":
+                srv.send_data(s, unhx(op[2]), end_stream=op[3])
+                if op[3]:
+                    closed_local.add(s)
+            else:
+                srv.end_stream(s); closed_local.add(s)
+            rec = [k, s] + list(op[2:])
+        elif k == "wins":
+            s = sids[op[1]]
+            if s in ended:
+                return
+            cli.increment_flow_control_window(op[2], s); rec = [k, s, op[2]]
+        else:
+            cli.increment_flow_control_window(op[1]); rec = [k, op[1]]
+        pump()
+        fed.append(rec); out.append(list(frames)); frames.clear()
+
+    for op in case["ops"]:
+        do(op)
+    n_random = len(fed)
+    # finish: end every stream, then re-open the windows in small steps until everything has been written
+    for i in range(len(sids)):
+        do(["end", i])
+    for _ in range(300):
+        if all(s in ended for s in sids):
+            break
+        do(["winc", case["step"]])
+        for i in range(len(sids)):
+            do(["wins", i, case["step"]])
+    bufs = [[s, [[hx(c.data), bool(c.end_stream)] for c in q]] for s, q in srv.stream_buffers.items()]
+    return {"sids": sids, "fed": fed, "out": out, "bufs": bufs, "cwin": srv.outbound_flow_control_window,
+            "drained": all(s in ended for s in sids), "n_random": n_random}
+
+
+def run_h2e2e(case):
+    """a body relayed by a real HttpLayer over an HTTP/2 leg whose peer has a small flow-control window"""
+    import h2.config, h2.connection, h2.events, h2.settings, h2.exceptions
+    resp = case["dir"] == "resp"
+    pol = _attr(case["pol"])
+
+    def policy(hook, drv):
+        if hook.name == ("responseheaders" if resp else "requestheaders") and pol is not None:
+            msg = hook.args()[0].response if resp else hook.args()[0].request
+            msg.stream = pol
+
+    def connect(conn, drv):
+        if not resp:
+            conn.alpn = b"h2"
+        return None
+
+    opts = {"store_streamed_bodies": case["store"], "http2_ping_keepalive": 0}
+    if case["thr"] is not None:
+        opts["stream_large_bodies"] = case["thr"]
+    d = Driver(lambda ctx: http.HttpLayer(ctx, HTTPMode.regular), options_overrides=opts, policy=policy, connect=connect,
+               client_kwargs={"alpn": b"h2"} if resp else None)
+    peer = h2.connection.H2Connection(h2.config.H2Configuration(client_side=resp, header_encoding=False))
+    pc = 0 if resp else 1
+    st = {"pos": 0, "recv": bytearray(), "ended": False, "reset": False, "late": False, "err": None}
+
+    def pump():
+        while True:
+            moved = False
+            tr = d.trace
+            while st["pos"] < len(tr):
+                t = tr[st["pos"]]; st["pos"] += 1
+                if t[0] == "send" and t[1] == pc:
+                    moved = True
+                    try:
+                        evs = peer.receive_data(bytes.fromhex(t[2]))
+                    except h2.exceptions.ProtocolError as e:
+                        st["err"] = type(e).__name__; st["reset"] = True
+                        return
+                    for ev in evs:
+                        if isinstance(ev, h2.events.DataReceived):
+                            if st["ended"]:
+                                st["late"] = True
+                            st["recv"] += ev.data
+                        elif isinstance(ev, h2.events.StreamEnded):
+                            st["ended"] = True
+                        elif isinstance(ev, h2.events.StreamReset):
+                            st["reset"] = True
+            o = peer.data_to_send()
+            if o and len(d.conns) > pc and d.crashed is None:
+                moved = True
+                d.data(pc, o)
+            if not moved:
+                return
+
+    chunks = [unhx(c) for c in case["chunks"]]
+    body = b"".join(chunks)
+    frh = (b"Content-Length: %d\r\n" % len(body)) if case["fr"] == "len" else b"Transfer-Encoding: chunked\r\n"
+    wire = lambda c: c if case["fr"] == "len" else b"%x\r\n%s\r\n" % (len(c), c)
+    d.start()
+    if resp:
+        peer.initiate_connection()
+        peer.update_settings({h2.settings.SettingCodes.INITIAL_WINDOW_SIZE: case["w0"]})
+        pump()
+        peer.send_headers(1, H2_HEADERS, end_stream=True)
+        pump()
+        src = 1
+        if len(d.conns) < 2:
+            return {"fail": "no upstream connection", "crashed": d.crashed[0] if d.crashed else None}
+        d.data(1, b"HTTP/1.1 200 OK\r\n" + frh + b"\r\n"); pump()
+    else:
+        src = 0
+        d.data(0, b"POST http://example.com/p HTTP/1.1\r\nHost: example.com\r\n" + frh + b"\r\n")
+        if len(d.conns) < 2:
+            return {"fail": "no upstream connection", "crashed": d.crashed[0] if d.crashed else None}
+        peer.initiate_connection()
+        peer.update_settings({h2.settings.SettingCodes.INITIAL_WINDOW_SIZE: case["w0"]})
+        pump()
+    for c in chunks:
+        d.data(src, wire(c)); pump()
+    if case["fr"] != "len":
+        d.data(src, b"0\r\n\r\n"); pump()
+    for _ in range(40 + 4 * len(body)):
+        if st["ended"] or st["reset"] or d.crashed:
+            break
+        try:
+            peer.increment_flow_control_window(case["step"], 1)
+        except Exception as e:  # the peer's h2 stack refuses: the stream is gone
+            st["err"] = type(e).__name__
+            break
+        pump()
+    return {"recv": hx(bytes(st["recv"])), "ended": st["ended"], "reset": st["reset"], "late": st["late"],
+            "err": st["err"], "crashed": d.crashed[0] if d.crashed else None}
+
+
 def run_impl(case):
+    if case["k"] == "h2buf":
+        return run_h2buf(case)
+    if case["k"] == "h2e2e":
+        return run_h2e2e(case)
     if case["k"] == "size":
         try:
             v = human.parse_size.__wrapped__(case["s"])
@@ -361,7 +591,28 @@ def _ctitem(t):
     return "(TErrPage (-1)%Z)"
 
 
+def _cop(o):
+    k = o[0]
+    if k == "send":
+        return f"(OSend {cN(o[1])} {cbytes(unhx(o[2]))} {cbool(o[3])})"
+    if k == "end":
+        return f"(OEnd {cN(o[1])})"
+    if k == "wins":
+        return f"(OWinS {cN(o[1])} {cZ(o[2])})"
+    return f"(OWinC {cZ(o[1])})"
+
+
 def coq_case(case, obs):
+    if case["k"] == "h2e2e":
+        return None          # evaluated by the oracle only (real HttpLayer + hyper-h2 peer)
+    if case["k"] == "h2buf":
+        fr = lambda f: f"(Frame {cN(f[0])} {cbytes(unhx(f[1]))} {cbool(f[2])})"
+        ch = lambda c: f"({cbytes(unhx(c[0]))}, {cbool(c[1])})"
+        return (f"CH2 {clist([cN(x) for x in obs['sids']], 'N')} {cZ(case['w0'])} {cZ(case['c0'])} "
+                f"{clist([_cop(o) for o in obs['fed']], 'op')} "
+                f"{clist([clist([fr(f) for f in fs], 'frame') for fs in obs['out']], '(list frame)')} "
+                f"{clist(['(%s, %s)' % (cN(k), clist([ch(c) for c in q], 'chunk')) for k, q in obs['bufs']], '(N * list chunk)%type')} "
+                f"{cZ(obs['cwin'])}")
     if case["k"] == "size":
         r = obs["r"]
         if r[0] == "other":
@@ -569,7 +820,63 @@ def _side(case, obs, req):
     return v
 
 
+def oracle_h2buf(case, obs):
+    """the send buffer is a queue: per stream, the DATA payloads written are at every moment a prefix of the data
+    handed to send_data, END_STREAM comes on the last frame only, and once the windows have been re-opened everything
+    has been written"""
+    v = []
+    queued = {s: b"" for s in obs["sids"]}
+    written = {s: b"" for s in obs["sids"]}
+    ended = set()
+    for op, frames in zip(obs["fed"], obs["out"]):
+        if op[0] == "send":
+            queued[op[1]] += unhx(op[2])
+        for sid, data, es in frames:
+            if sid in ended:
+                v.append({"key": "h2-data-after-end-stream", "what": f"stream {sid}: DATA frame written after END_STREAM"})
+                return v
+            written[sid] += unhx(data)
+            if es:
+                ended.add(sid)
+            if not queued[sid].startswith(written[sid]):
+                v.append({"key": "h2-send-buffer-reorders",
+                          "what": f"stream {sid}: DATA written {written[sid][-24:]!r} is not a prefix of the data queued "
+                                  f"{queued[sid][:40]!r} (after {op})"})
+                return v
+    if not obs["drained"]:
+        v.append({"key": "h2-send-buffer-stuck", "what": "streams not ended although the windows were re-opened 300 times"})
+        return v
+    for s in obs["sids"]:
+        if written[s] != queued[s]:
+            v.append({"key": "h2-send-buffer-reorders",
+                      "what": f"stream {s}: END_STREAM written after {len(written[s])} of {len(queued[s])} queued bytes"})
+            break
+    if obs["bufs"]:
+        v.append({"key": "h2-send-buffer-leftover", "what": f"stream_buffers not empty after all streams ended: {obs['bufs']!r}"[:200]})
+    return v
+
+
+def oracle_h2e2e(case, obs):
+    if obs.get("fail") or obs.get("crashed"):
+        return [{"key": "h2-relay-failed", "what": f"HTTP/2 leg: {obs.get('fail') or obs.get('crashed')}"}]
+    chunks = [unhx(c) for c in case["chunks"]]
+    want = _apply(case["pol"], chunks) if isinstance(case["pol"], str) else b"".join(chunks)
+    got = unhx(obs["recv"])
+    who = "response to an HTTP/2 client" if case["dir"] == "resp" else "request to an HTTP/2 server"
+    if obs["reset"] or obs["err"]:
+        return [{"key": "h2-relay-mismatch", "what": f"{who}: stream reset / protocol error {obs['err']} after {len(got)} bytes"}]
+    if got != want or not obs["ended"] or obs["late"]:
+        return [{"key": "h2-relay-mismatch",
+                 "what": f"{who} (window {case['w0']}, updates of {case['step']}): peer reassembled {len(got)} bytes "
+                         f"{got[:40]!r}, expected {len(want)} bytes {want[:40]!r}; END_STREAM seen={obs['ended']}, data after it={obs['late']}"}]
+    return []
+
+
 def oracle(case, obs):
+    if case["k"] == "h2buf":
+        return oracle_h2buf(case, obs)
+    if case["k"] == "h2e2e":
+        return oracle_h2e2e(case, obs)
     if case["k"] == "size":
         r = obs["r"]
         if r[0] == "other":
@@ -599,6 +906,11 @@ def oracle(case, obs):
 
 
 def nontrivial(case, obs):
+    if case["k"] == "h2buf":
+        # something had to wait in the send buffer: some operation other than a send wrote frames
+        return any(fs and op[0] in ("wins", "winc") for op, fs in zip(obs["fed"], obs["out"]))
+    if case["k"] == "h2e2e":
+        return len(case["chunks"]) >= 1 and not obs.get("fail")
     if case["k"] == "size":
         s = case["s"]
         return s is not None and not s.isdigit()
@@ -608,6 +920,16 @@ def nontrivial(case, obs):
 
 
 def classify(case, obs):
+    if case["k"] == "h2buf":
+        tags = ["h2buf", f"h2buf-streams={case['n']}", "h2buf-connwin-small" if case["c0"] < 65535 else "h2buf-connwin-default"]
+        split = any(op[0] in ("wins", "winc") and fs and not fs[-1][2] and len(unhx(fs[-1][1])) > 0 for op, fs in zip(obs["fed"], obs["out"]))
+        if split:
+            tags.append("h2buf-partial-flush")
+        if any(len(fs) > 1 for fs in obs["out"]):
+            tags.append("h2buf-multi-frame-flush")
+        return tags
+    if case["k"] == "h2e2e":
+        return ["h2e2e", "h2e2e-" + case["dir"], "h2e2e-" + ("callable" if isinstance(case["pol"], str) else str(case["pol"]))]
     if case["k"] == "size":
         return ["size", "size-" + obs["r"][0]]
     tags = ["run", "req-" + case["req"]["fr"], "resp-" + case["resp"]["fr"]]
